@@ -813,6 +813,15 @@ func (c *EvalCtx) call(v *ECall) TV {
 		need(1)
 		a := args()
 		return tvTerm(c.x.sliceArr(a[0]))
+	case "appendOne":
+		// appendOne(s, x): the slice append(s, x) as produced by the executor
+		need(2)
+		a := args()
+		if !strings.HasPrefix(string(a[0].Sort), "Sl$") {
+			c.fail("appendOne needs a slice")
+		}
+		ln := c.x.sliceLen(a[0])
+		return tvTerm(c.x.mkSlice(a[0].Sort, Store(c.x.sliceArr(a[0]), ln, a[1]), Add(ln, IntLit(1))))
 	case "appendAll":
 		// appendAll(s, t): the slice append(s, t...) as produced by the executor
 		need(2)
